@@ -307,6 +307,8 @@ def run_impl(case: dict):
     obs, fails = [], []
     lock = not case.get("ph")
     for idx, op in enumerate(case["ops"]):
+        before_items = impl.plain(dict(s)) if op["o"] == "merge" else None
+        before_exprs = {i: e["expression"] for i, e in s.expressions.items()} if op["o"] == "merge" else None
         try:
             s, d, out_s, out_d, notes = apply_impl(s, d, op)
         except Exception as e:  # noqa: BLE001
@@ -316,6 +318,23 @@ def run_impl(case: dict):
         obs.append(o)
         for n in notes:
             fails.append((idx, n, None, None))
+        if before_items is not None:
+            # merge() leaves every existing leaf untouched -- with or without placeholder entries around it. The one documented
+            # exception: a leaf that refers to its own key ($key in its text, or an EXPRESSION placeholder whose table entry --
+            # looked up by the placeholder's NUMBER -- has such a text)
+            after_items = impl.plain(dict(s))
+            for k, v in before_items.items():
+                if isinstance(v, (dict, list)) or (isinstance(k, str) and re.search(r"(BLOCKCOMMENT|LINECOMMENT|INCLUDE)\d{6}", k)):
+                    continue
+                text = v
+                m_ = re.fullmatch(r"EXPRESSION(\d{6})", v) if isinstance(v, str) else None
+                if m_ and int(m_.group(1)) in before_exprs:
+                    text = before_exprs[int(m_.group(1))]
+                if spec.refers_to_own_key(k, text) or spec.refers_to_own_key(k, v):
+                    continue
+                if k not in after_items or not same(after_items[k], v):
+                    fails.append((idx, f"merge changed the existing leaf {k!r}", enc(after_items.get(k)), enc(v)))
+                    break
         if lock:
             if o["sd"]["data"] != o["dict"] or list(s) != list(d) or len(s) != len(d):
                 fails.append((idx, f"after {op['o']}: SDict items differ from builtin dict", o["sd"]["data"], o["dict"]))
